@@ -21,6 +21,7 @@ import (
 	"github.com/vulcand/oxy/v2/memmetrics"
 	"github.com/vulcand/oxy/v2/ratelimit"
 	"github.com/vulcand/oxy/v2/roundrobin"
+	"github.com/vulcand/oxy/v2/roundrobin/stickycookie"
 	"github.com/vulcand/oxy/v2/stream"
 	"github.com/vulcand/oxy/v2/trace"
 )
@@ -116,7 +117,16 @@ func c09RoundRobin(c *Ctx, frozen bool, r *rand.Rand, rep int) {
 		for _, sticky := range []bool{false, true} {
 			var opts []roundrobin.LBOption
 			if sticky {
-				opts = append(opts, roundrobin.EnableStickySession(roundrobin.NewStickySession("aff")))
+				ss := roundrobin.NewStickySession("aff")
+				switch rep % 3 { // every codec is shared by all requests of the balancer
+				case 1:
+					ss.SetCookieValue(&stickycookie.HashValue{Salt: "s"})
+				case 2:
+					if av, err := stickycookie.NewAESValue([]byte("0123456789abcdef"), time.Minute); err == nil {
+						ss.SetCookieValue(av)
+					}
+				}
+				opts = append(opts, roundrobin.EnableStickySession(ss))
 			}
 			if rep%2 == 1 {
 				opts = append(opts, roundrobin.Logger(fmtLogger{}), roundrobin.Verbose(true))
